@@ -46,6 +46,7 @@ def run(ids, env):
                 if pr.returncode not in (0, 1): res[p]["stderr_tail"] = pr.stderr[-1500:]
                 if pr.returncode == 1: break
         finally:
+            subprocess.run(["git", "-C", REPO, "apply", "-R", patch], capture_output=True)      # also removes files the change added
             subprocess.run(["git", "-C", REPO, "checkout", "--", "."], check=True)
         out[sid] = {"checks": res, "detected": any(v["exit"] == 1 for v in res.values())}
         print(sid, "DETECTED" if out[sid]["detected"] else "MISSED", {p: v["exit"] for p, v in res.items()}, flush=True)
